@@ -3,7 +3,7 @@
 (* The composed state machine: sessions that mix detection / binding,      *)
 (* copying, clipping (make mask, save / load mask, apply), selecting,       *)
 (* point lookups, single-cell selections and point extraction (each        *)
-(* missing-point policy) and triangulation on any view,                    *)
+(* missing-point policy), triangulation and geometry export on any view,   *)
 (* variables, in-place modification, saving and reopening -- on datasets    *)
 (* DERIVED from one another.  The per-property modules decide each          *)
 (* operation in depth; this module decides that they compose: whatever     *)
@@ -200,6 +200,14 @@ Triangulate(o) ==
   /\ out' = [a |-> "Triangulate", obj |-> o]
   /\ UNCHANGED <<masks, files>>
 
+\* write the cells of a view as GeoJSON features (operations.geometry.write_geojson) and read the file back
+Export(o) ==
+  /\ o \in Live /\ CanTouch(o)
+  /\ Log([a |-> "Export", obj |-> o])
+  /\ objs' = Touched(o)[1] /\ convs' = Touched(o)[2]
+  /\ out' = [a |-> "Export", obj |-> o]
+  /\ UNCHANGED <<masks, files>>
+
 Next ==
   /\ Len(hist) < Depth /\ UNCHANGED B
   /\ \/ \E o \in Live : Access(o) \/ Copy(o) \/ Save(o) \/ Mutate(o, 1)
@@ -210,7 +218,7 @@ Next ==
      \/ \E o \in Live : \E vs \in VarChoices : SelectVariables(o, vs)
      \/ \E o \in Live : \E n \in ValidCells(B) : Query(o, n)
      \/ \E o \in Live : \E pos \in 1..Len(objs[o].cells) : SelectCell(o, pos)
-     \/ \E o \in Live : Triangulate(o)
+     \/ \E o \in Live : Triangulate(o) \/ Export(o)
      \/ \E o \in Live : \E ns \in PointLists : \E pol \in {"error", "drop", "fill"} : Extract(o, ns, pol)
 Spec == Init /\ [][Next]_vars
 
